@@ -1,3 +1,4 @@
+import TinyFlux.Generated.IndexTables
 import TinyFlux.Lemmas.Refinement
 import TinyFlux.Lemmas.PropsAux2
 /-!
@@ -94,5 +95,14 @@ theorem read_leaves_valid (s : State) (hs : Inv s) (ha : s.cfg.autoIndex = true)
 theorem read_op_keeps_valid_index (s : State) (hs : Inv s) (op : Op) (hr : isRead op = true) (hm : MeasOK op)
     (hv : s.index.valid = true) : (s.step op).1.index = s.index := by
   exact (step_read_refines s hs op hr hm).2.2.2.2 hv
+
+/-- (T) over the attribute lists regenerated from `index.py`: `_reset` assigns every attribute that
+    `__init__` creates (the position array included — the pinned commit forgot it), to the empty value,
+    and sets `_valid`; `invalidate` is `_reset` followed by `_valid = False` -/
+theorem reset_clears_every_attribute :
+    (Generated.indexInitAttrs.map (·.1)).all (fun a => (Generated.indexResetAttrs.map (·.1)).contains a) = true ∧
+    Generated.indexResetAttrs.all (fun av => av.2 == "0" || av.2 == "{}" || av.2 == "[]" || av == ("_valid", "True")) = true ∧
+    Generated.indexInvalidateBody = ["self._reset()", "self._valid = False"] := by
+  refine ⟨by decide, by decide, rfl⟩
 
 end TinyFlux.Props.C06
